@@ -14,6 +14,9 @@ parameter, plus the family's token sequences / sweeps / pumps) x CONTENT_LENGTH 
 multipart with hostile part headers, JSON incl. deep nesting), all defined in the spec and exported; function
 "RequestBody" touches every Request attribute plus fresh-request orders (stream.read, get_data, get_json(force), files
 before form, form after the stream was read).  Its violation keys start with "Body<clause>".
+Accept family: tokens / grammar with region tags next to every spelling of q=0; the Accept-class positions are also
+called with offers derived from the header under test (hostile.derive_offers: ranges, primary tags, regional variants,
+MIME generalisations, charset aliases, one unrelated offer; singletons, ordered pairs, full list, with / without default).
 The driver adds seeded random token sequences (longer, and across families) drawn from the exported
 token tables.  Python records type signatures / exception class names only.
 """
